@@ -26,7 +26,7 @@ def main():
     P1 = MOD + '/internal/notify.'
     c1.load([P1 + 'VerifC16Notify', P1 + 'VerifC16NotifyCoop'])
     j1 = [Job(P1 + 'VerifC16Notify', a, cfg=cfg, max_paths=100000, installers=[bmc.install]) for a in
-          ([(1, 0, 0), (1, 1, 0)] if t == 'quick' else [(1, 0, 0), (1, 1, 0), (1, 0, 1), (2, 0, 0), (2, 1, 0), (1, 1, 1)])]
+          ([(1, 0, 0), (1, 1, 0)] if t == 'quick' else [(1, 0, 0), (1, 1, 0), (1, 0, 1)])]
     pre = 2 if t == 'quick' else 3
     c1b = c1
     grid1 = [(1, 0, 0), (1, 1, 0), (2, 0, 0), (2, 1, 0), (1, 0, 1), (1, 1, 1)] if t == 'quick' else [(1, 0, 0), (1, 1, 0), (2, 0, 0), (2, 1, 0), (3, 0, 0), (1, 0, 1), (1, 1, 1), (2, 0, 1), (2, 1, 1)]
@@ -39,7 +39,7 @@ def main():
     P2 = MOD + '/pkg/lifecycle.'
     c2.load([P2 + 'VerifC16Lifecycle', P2 + 'VerifC16LifecycleCoop'])
     j2 = [Job(P2 + 'VerifC16Lifecycle', a, cfg=cfg, max_paths=100000, installers=[bmc.install]) for a in
-          ([(1, 0, 0)] if t == 'quick' else [(1, 0, 0), (1, 1, 0), (1, 0, 1), (2, 0, 0), (1, 2, 0)])]
+          ([(1, 0, 0)] if t == 'quick' else [(1, 0, 0), (1, 1, 0)])]
     c2b = c2
     grid2 = [(1, 0, 0), (1, 1, 0), (2, 0, 0), (1, 0, 1)] if t == 'quick' else [(1, 0, 0), (1, 1, 0), (1, 2, 0), (2, 0, 0), (2, 1, 0), (1, 0, 1), (2, 0, 1)]
     res += c2b.run_jobs(j2 + [Job(P2 + 'VerifC16LifecycleCoop', a, cfg={'unwind': 8, 'timeout_ms': 60000}, installers=[functools.partial(_coop_inst, pre)], max_paths=300000,
